@@ -6,6 +6,7 @@ import (
 	"strconv"
 
 	"verifsim/core"
+	"verifsim/refjson"
 )
 
 // Thresholds around which the coders change behaviour (buffer sizes and their
@@ -308,6 +309,11 @@ func (g *jsonGen) object(depth int) {
 				}
 			}
 			g.b = append(g.b, '"')
+			if used != nil {
+				if u, _ := refjson.Unquote(g.b[start:]); true {
+					used["\x00"+u] = true
+				}
+			}
 		} else {
 			for try := 0; ; try++ {
 				g.b = g.b[:start]
@@ -316,14 +322,22 @@ func (g *jsonGen) object(depth int) {
 					break
 				}
 				key := string(g.b[start:])
-				if !used[key] && nameIsPlain(g.b[start:]) || try > 4 {
+				if u, mangled := refjson.Unquote(g.b[start:]); !mangled && !g.cfg.InvalidUTF8 {
+					key = "\x00" + u // compare names after unescaping
+				} else if !nameIsPlain(g.b[start:]) {
+					key = ""
+				}
+				if key != "" && !used[key] || try > 4 {
 					if try > 4 {
 						g.b = g.b[:start]
 						g.b = append(g.b, '"', 'u')
 						g.b = strconv.AppendInt(g.b, int64(i), 10)
 						g.b = append(g.b, '"')
 					}
-					used[string(g.b[start:])] = true
+					if try > 4 {
+						key = "\x00u" + strconv.Itoa(i)
+					}
+					used[key] = true
 					break
 				}
 			}
